@@ -31,7 +31,7 @@ partial def parseNList (j : Json) : Except String NList :=
   match j with
   | .arr a => do
     let xs ← a.toList.mapM parseNList
-    pure (.node xs)
+    pure (xs.foldr (fun h t => NList.cons h t) NList.nil)
   | _ => do
     let v ← j.getInt?
     pure (.leaf v)
@@ -110,9 +110,9 @@ def handle (req : Json) : Except String Json := do
       let v ← parseNList (← getObj attr "v")
       let mut vals : List Json := []
       for idx in idxs do
-        match (if mode == "trailing" then selListTrailing v idx else selListStrict v idx) with
+        match (if mode == "full" then selListFull v idx else selList v idx) with
         | .ok (.leaf x) => vals := vals ++ [Json.num (JsonNumber.fromInt x)]
-        | .ok (.node _) => vals := vals ++ [Json.str "list"]
+        | .ok _ => vals := vals ++ [Json.str "list"]
         | .error e => return Json.mkObj [("ok", true), ("error", Json.str e)]
       pure (Json.mkObj [("ok", true), ("values", Json.arr vals.toArray)])
     | "dm" => do
@@ -121,7 +121,7 @@ def handle (req : Json) : Except String Json := do
       let c := shape.getD 1 1
       let mut vals : List Json := []
       for idx in idxs do
-        match selDM r c idx with
+        match (if mode == "full" then selDMFull r c idx else selDM dims r c idx) with
         | .ok p => vals := vals ++ [Json.num (JsonNumber.fromNat p)]
         | .error e => return Json.mkObj [("ok", true), ("error", Json.str e)]
       pure (Json.mkObj [("ok", true), ("positions", Json.arr vals.toArray)])
@@ -155,10 +155,15 @@ def handle (req : Json) : Except String Json := do
       bind := bind ++ [(d.name, (⟨r, c, v⟩ : IMat))]
     let env : Env := fun n => bind.lookup n
     let tbl := tableOf decls
-    match residual env eqs, residual (renameEnv decls env) (eqs.map (expandE tbl)) with
-    | some u, some e => pure (Json.mkObj [("ok", true), ("unexpanded", jints u), ("expanded", jints e)])
-    | none, _ => pure (Json.mkObj [("ok", true), ("error", "unexpanded-not-evaluable")])
-    | _, none => pure (Json.mkObj [("ok", true), ("error", "expanded-not-evaluable")])
+    let env' := renameEnv decls env
+    let mut us : List Json := []
+    let mut es : List Json := []
+    for e in eqs do
+      match residual env [e], residual env' [expandE tbl e] with
+      | some u, some x => us := us ++ [jints u]; es := es ++ [jints x]
+      | none, _ => return Json.mkObj [("ok", true), ("error", "unexpanded-not-evaluable")]
+      | _, none => return Json.mkObj [("ok", true), ("error", "expanded-not-evaluable")]
+    pure (Json.mkObj [("ok", true), ("unexpanded", Json.arr us.toArray), ("expanded", Json.arr es.toArray)])
   | o => throw s!"unknown-op {o}"
 
 def main : IO Unit := serve handle
